@@ -801,7 +801,7 @@ func commaStream(src []byte) string {
 var c03ReuseSources = []string{
 	"package p\n\nvar x = []int{1, // one\n2, 3, // three\n}\n\nfunc f(a int, b int,\n) {\n\n\n  g(1, 2,\n)\n}\n",
 	"package p\n// doc\ntype T struct {\n  A int // a\n\n\n  B []string\n}\nfunc (t T) m( ) { switch t.A {\ncase 1:\n// c\n}\n}\n",
-	"package p\n\n/* b */ const c = 1\n\n\n\nvar (\n\ty = map[string]int{\n\"a\": 1,\n\n\"b\": 2,\n}\n)\n",
+	"package p\n\nimport (\n\t\"zeta\"\n\n\n\t\"alpha\"\n)\n\n/* b */ const c = 1\n\n\n\nvar (\n\ty = map[string]int{\n\"a\": 1,\n\n\"b\": 2,\n}\n)\n",
 }
 
 func c03ReuseJudge(src, out string) string {
